@@ -56,11 +56,25 @@ func VerifHarness_C08() {
 	if sib == 1 {
 		classes = []int{tcNone, tcEsc}
 	}
+	if sib == 2 {
+		classes = []int{tcNone, tcSibling} // a foreign taint whose key starts like escalator's: the node is untainted
+	}
 	annots := []int{0}
 	if ann == 1 {
 		annots = []int{0, 2} // the annotation protects from removal, not from tainting
 	}
 	w.symNodes("", g, N, classes, dry > 0, annots, true) // in dry mode cordoned nodes are candidates like any other
+	if zero == 2 {
+		// provider ids that are empty (not yet set by the cloud controller) or shared by two Node objects
+		for i, n := range w.nodes {
+			switch verifChoice("n"+strconv.Itoa(i)+".providerID", 3) {
+			case 1:
+				n.obj.Spec.ProviderID = ""
+			case 2:
+				n.obj.Spec.ProviderID = w.nodes[0].obj.Spec.ProviderID
+			}
+		}
+	}
 	if zero == 1 {
 		for i, n := range w.nodes {
 			if verifChoice("n"+strconv.Itoa(i)+".zeroCreation", 2) == 1 {
@@ -106,9 +120,9 @@ func VerifHarness_C08() {
 		}
 		verifReach("C08.tainted-one")
 		// (in dry mode the taints on the nodes are not consulted: every node not on the tracker is a candidate)
-		verifAssert("C08.taints-only-untainted", dry > 0 || t.class == tcNone)
+		verifAssert("C08.taints-only-untainted", dry > 0 || t.class == tcNone || t.class == tcSibling)
 		for k, u := range w.nodes {
-			if k == i || (dry == 0 && u.class != tcNone) || attempted[k] {
+			if k == i || (dry == 0 && u.class != tcNone && u.class != tcSibling) || attempted[k] {
 				continue
 			}
 			verifReach("C08.left-one-untainted")
@@ -124,7 +138,7 @@ func VerifHarness_C08() {
 }
 
 // VerifHarness_C09: cordoned nodes are never touched and never counted.
-// shape: [nodes, pods, class menu]
+// shape: [nodes, pods, class menu, prior scan (0/1), max_node_age rotation with symbolic node ages (0/1)]
 func VerifHarness_C09() {
 	N, P, menu := verifShape(0), verifShape(1), verifShape(2)
 	w := newWorld(0)
@@ -134,9 +148,13 @@ func VerifHarness_C09() {
 	minEff := verifInt("min", 0, 1)
 	o.MinNodes, o.MaxNodes = int(minEff), N+3
 	o.FastNodeRemovalRate, o.SlowNodeRemovalRate = 2, 1
+	maxAge := verifShape(4) == 1 // max_node_age rotation on: only untainted (hence uncordoned) nodes can trigger it
+	if maxAge {
+		o.MaxNodeAge = "24h"
+	}
 	g := w.addGroup(o, 0, int64(N)+3, 0)
 	classes := [][]int{{tcNone, tcEsc, tcForce}, {tcNone, tcEsc, tcForce, tcEscAndForce, tcEscGarbage}}[menu]
-	w.symNodes("", g, N, classes, true, []int{0, 2}, false)
+	w.symNodes("", g, N, classes, true, []int{0, 2}, maxAge)
 	w.symPods("", g, P, 0, false, -3*w.cpuPerNode, false) // pods may sit on cordoned nodes too
 	w.build()
 	if verifShape(3) == 1 {
@@ -182,6 +200,21 @@ func VerifHarness_C09() {
 	verifAssert("C09.capacity-excludes-cordoned(low)", verifImplies(fastBand, int64(j.taintAttempts) == imin(2, s.untainted-minEff)))
 	verifAssert("C09.capacity-excludes-cordoned(high)", verifImplies(upBand, verifAnd(j.taintAttempts == 0, j.untaintAttempts+j.increaseAttempts >= 1)))
 	verifReachIf("C09.cordoned-changes-band", verifAnd(upBand, s.cordoned > 0))
+	if maxAge {
+		up := int64(o.TaintUpperCapacityThresholdPercent)
+		idle := verifAnd(normal, verifAnd(clearlyAbove(c, up*s.cpuCap), clearlyBelow(c, su*s.cpuCap)))
+		noOldCounted, oldCordoned := true, false
+		for _, n := range w.nodes {
+			young := n.createAge+5 < 86400 // (a few seconds of clock slack)
+			if n.class == tcNone {
+				noOldCounted = verifAnd(noOldCounted, verifOr(n.cordoned, young))
+				oldCordoned = verifOr(oldCordoned, verifAnd(n.cordoned, n.createAge > 86400+5))
+			}
+		}
+		quiet := verifAnd(j.taintAttempts == 0, j.untaintAttempts+j.increaseAttempts == 0)
+		verifAssert("C09.cordoned-node-age-does-not-drive-rotation", verifImplies(verifAnd(idle, noOldCounted), quiet))
+		verifReachIf("C09.old-cordoned-node-in-idle-band", verifAnd(verifAnd(idle, noOldCounted), oldCordoned))
+	}
 }
 
 // VerifHarness_C10: the no-delete annotation protects from removal only.
